@@ -58,7 +58,9 @@ Filter(seq, S) == LET idx == {i \in 1..Len(seq) : seq[i] \in S} IN
 Dirs == LET ds == {DirOf[f] : f \in targets} IN Filter(DirOrder, ds)
 SubImages == IF strategy = "all" THEN <<[files |-> ImageOrder, nonImports |-> targets]>>
              ELSE [k \in 1..Len(Dirs) |->
-                     LET T == {f \in targets : DirOf[f] = Dirs[k]} IN [files |-> Filter(ImageOrder, Reach(T)), nonImports |-> T]]
+                     \* (ImageByDir gives ImageWithOnlyPaths the files of the directory in path order; each is preceded by its
+                     \*  imports in the order the file declares them: a DFS of its own, not a projection of the image order)
+                     LET T == {f \in targets : DirOf[f] = Dirs[k]} IN [files |-> Order(Sorted(T), 1, <<>>), nonImports |-> T]]
 AllNonImports == UNION {SubImages[k].nonImports : k \in 1..Len(SubImages)}
 
 \* isFileToGenerate over the requests in order, threading alreadyUsedPaths
